@@ -373,13 +373,19 @@ func sortHostsReverseHostPort(hosts []string) []string {
 	if len(hosts) < 2 {
 		return hosts
 	}
-	for i, h := range hosts {
-		hosts[i] = ReverseHostPort(h)
+	// the reversed strings are only the sort keys: reversing twice does not
+	// always give back the host (a trailing ':' is lost, bytes which are not
+	// valid UTF-8 are replaced) and the hosts are the keys of the table
+	reversed := make(map[string]string, len(hosts))
+	for _, h := range hosts {
+		reversed[h] = ReverseHostPort(h)
 	}
-	sort.Sort(sort.Reverse(sort.StringSlice(hosts)))
-	for i, h := range hosts {
-		hosts[i] = ReverseHostPort(h)
-	}
+	sort.Slice(hosts, func(i, j int) bool {
+		if ri, rj := reversed[hosts[i]], reversed[hosts[j]]; ri != rj {
+			return ri > rj
+		}
+		return hosts[i] > hosts[j]
+	})
 	// a host without glob characters matches exactly one name: it is more
 	// specific than any pattern, whatever the byte order of the reversed strings
 	// says (a '?' or '{' sorts above letters, and the reversed exact host is a
